@@ -300,6 +300,21 @@ impl Oracle for Monitor {
             // a node that panicked in the middle of an operation is not judged (nor driven further)
             return Verdict::Abandon(Abandon(format!("panic in {kind}: {p}")));
         }
+        if self.which == Which::NonFinite {
+            // numbers read from files
+            if let Some(crate::world::Aux::Corrupted { imported: true, non_finite, .. }) = &res.aux {
+                *self.probes.entry("files_with_forged_numbers_imported".into()).or_insert(0) += 1;
+                if let Some(first) = non_finite.first() {
+                    return Verdict::Violation(Violation::simple(
+                        "finite",
+                        idx,
+                        kind,
+                        "non-finite-from-file",
+                        format!("workbook imported from an xlsx file: {first} (+{} more)", non_finite.len() - 1),
+                    ));
+                }
+            }
+        }
         self.last = crate::snap::hash(&crate::snap::snapshot(&w.primary));
         self.check_all(w, kind, idx)
     }
